@@ -126,6 +126,14 @@ def cases(tier, seed):
     for i, g in enumerate(neg):
         for f in ('randmio_und_connected', 'latmio_und_connected'):
             out.append({'f': f, 'g': g, 'kind': 'neg_disconnected', 'w': ('bin', 'real')[i % 2], 'ws': i, 'directed': False})
+    # two equal cliques (every node adjacent to half of the others) and self-connections on every node: dense by any
+    # degree count, disconnected all the same
+    for i, k in enumerate((3, 4, 5, 6) if thorough else (3, 4, 5)):
+        g = ['disjoint', ['named', 'complete', k], ['named', 'complete', k]]
+        for f in ('randmio_und_connected', 'latmio_und_connected'):
+            for sl in (True, False):
+                out.append({'f': f, 'g': ['perm', g, seed + i] if i % 2 else g, 'kind': 'neg_disconnected', 'w': ('bin', 'real')[i % 2], 'ws': i,
+                            'directed': False, 'selfloops': sl})
     asym = [['named', 'er_strong', 6, .3, seed + i] for i in range(30 if thorough else 5)] + \
            [['named', 'dcycle_chords', 7, 4, seed], ['named', 'tournament', 6, seed]]
     for i, g in enumerate(asym):
@@ -145,6 +153,9 @@ def run(case, bct, REC):
     A = G.build(case['g'])
     R = G.weigh(A, case.get('w', 'bin'), case.get('ws', 0), symmetric=not directed) * case.get('scale', 1.0)
     n = len(R)
+    if case.get('selfloops'):
+        R = R.copy()
+        R[np.arange(n), np.arange(n)] = 1.0
     kind = case['kind']
     if kind in ('neg_disconnected', 'neg_asymmetric'):
         if kind == 'neg_asymmetric' and np.array_equal(R, R.T):
